@@ -3,7 +3,7 @@ Invariants of the M-Precond state machine used by C03 (script well-formedness).
 (Single Mathlib modules may be imported; never `import Mathlib`.)
 -/
 import KfacVerif.Lemmas.SchedBase
-import KfacVerif.Lemmas.PrecondInv4
+import KfacVerif.Lemmas.PrecondInv7
 
 
 namespace KV.C03
@@ -72,11 +72,31 @@ theorem script_wf_any (c : Cfg) (hc : CfgOK c) (h : Hyper) (ops : List Op)
   rw [wfAuxS_eq_wfS]
   exact KV.PI.wfS_run c hc.asgOK h ops
 
+theorem ne_step_of {op : Op} (h : isStep op = false) : op ≠ .step := by
+  rintro rfl; simp [isStep] at h
+
+theorem ne_train_of {op : Op} (h : isTrainPass op = false) : op ≠ .fwdBwd true := by
+  rintro rfl; simp [isTrainPass] at h
+
+/-- whole iterations lead from boundary to boundary -/
+theorem WholeIter.bd {c : Cfg} (hc : CfgOK c) {ops : List Op} (hw : WholeIter c ops) :
+    ∀ s, KV.PI.Bd c s → KV.PI.Bd c (run c s ops) := by
+  induction hw with
+  | nil => intro s h; exact h
+  | iter rest _ ih =>
+    intro s h
+    rw [KV.PI.run_append, KV.PI.run_cons]
+    exact ih _ (KV.PI.block_ok hc.asgOK h)
+  | other op rest h1 h2 _ ih =>
+    intro s h
+    rw [KV.PI.run_cons]
+    exact ih _ (KV.PI.other_ok hc.asgOK op (ne_step_of h1) (ne_train_of h2) h)
+
 /-- MAIN LEMMA 2 (whole iterations): additionally no getter is reached while its request is queued -/
 theorem script_wf_whole (c : Cfg) (hc : CfgOK c) (h : Hyper) (hh : HyperOK h) (ops : List Op)
     (hw : WholeIter c ops) (hho : histHyperOK ops)
     (hne : (run c (Precond.St.init c h) ops).err = none) :
-    wf c.world (run c (Precond.St.init c h) ops).acts = true := by
-  sorry
+    wf c.world (run c (Precond.St.init c h) ops).acts = true :=
+  (hw.bd hc _ (KV.PI.Bd.init c h)).wf
 
 end KV.C03
